@@ -9,13 +9,13 @@ from e3nn.util import explicit_default_types
 
 
 def su2_generators(j: int) -> torch.Tensor:
-    m = torch.arange(-j, j)
+    m = torch.arange(-j, j, dtype=torch.float64)
     raising = torch.diag(-torch.sqrt(j * (j + 1) - m * (m + 1)), diagonal=-1)
 
-    m = torch.arange(-j + 1, j + 1)
+    m = torch.arange(-j + 1, j + 1, dtype=torch.float64)
     lowering = torch.diag(torch.sqrt(j * (j + 1) - m * (m - 1)), diagonal=1)
 
-    m = torch.arange(-j, j + 1)
+    m = torch.arange(-j, j + 1, dtype=torch.float64)
     return torch.stack(
         [
             0.5 * (raising + lowering),  # x (usually)
@@ -49,12 +49,17 @@ def change_basis_real_to_complex(l: int, dtype=None, device=None) -> torch.Tenso
     return q.to(dtype=dtype, device=device, copy=True, memory_format=torch.contiguous_format)
 
 
-def so3_generators(l) -> torch.Tensor:
+def _so3_generators_f64(l) -> torch.Tensor:
+    # always built in double precision, whatever the default dtype is
     X = su2_generators(l)
-    Q = change_basis_real_to_complex(l)
+    Q = change_basis_real_to_complex(l, dtype=torch.float64)
     X = torch.conj(Q.T) @ X @ Q
     assert torch.all(torch.abs(torch.imag(X)) < 1e-5)
     return torch.real(X)
+
+
+def so3_generators(l) -> torch.Tensor:
+    return _so3_generators_f64(l).to(dtype=torch.get_default_dtype())
 
 
 def wigner_D(l: int, alpha: torch.Tensor, beta: torch.Tensor, gamma: torch.Tensor) -> torch.Tensor:
@@ -93,7 +98,7 @@ def wigner_D(l: int, alpha: torch.Tensor, beta: torch.Tensor, gamma: torch.Tenso
     alpha = alpha[..., None, None] % (2 * math.pi)
     beta = beta[..., None, None] % (2 * math.pi)
     gamma = gamma[..., None, None] % (2 * math.pi)
-    X = so3_generators(l)
+    X = _so3_generators_f64(l).to(dtype=alpha.dtype, device=alpha.device)
     return torch.matrix_exp(alpha * X[1]) @ torch.matrix_exp(beta * X[0]) @ torch.matrix_exp(gamma * X[1])
 
 
